@@ -49,6 +49,15 @@ INFO = {
  'o1': ('C13', 'null_on_move copy constructor copies the pointer', 'deathwatched object with a live requirement copied through a const lvalue; the copy dies'),
  'o2': ('C16', 'one-argument set_reporter() resets the OK reporter to the default', 'a non-default OK reporter is installed, then set_reporter(f), then an accepted call'),
  'o3': ('C14', '~sequence_type(): early return when the sequence is completed (skips unlinking)', 'sequence object destroyed before satisfied-but-unsaturated expectations registered in it: std::abort() in ~list'),
+ 'p1': ('C10', 'not_matcher::matches(): `!is_null(u) && !m.matches(u)` (a "defensive" null guard)', '!m applied to a null pointer / null-comparable argument where m itself rejects null, e.g. !*eq(3) on a null int*'),
+ 'p2': ('C11', 'starts_with_elements_checker: the `it == e` end test is dropped', 'range_starts_with(e1..eN) against a range shorter than N whose members all match and whose trailing memory satisfies the remaining matchers'),
+ 'p3': ('C18', 'collection printer formats its members through streamer<value_type> directly instead of trompeloeil::print', 'a collection whose direct member is a null pointer, a null-comparable object or a type with a user printer<T>'),
+ 'q1': ('C01', 'sequence_type::retire_until(): `while` -> `if`: only the first skipped predecessor is retired', 'sequence with two or more skipped satisfied predecessors, then a call of the second skipped one'),
+ 'q2': ('C09', 'TROMPELOEIL_RETURN_: `auto&& _8` -> `auto _8` (RETURN / LR_RETURN only)', 'arity >= 8 and a RETURN expression that returns or writes through _8'),
+ 'q3': ('C19', 'lifetime.hpp alias guard tests TROMPELOEIL_LONG_MACRO: REQUIRE_DESTRUCTION / NAMED_REQUIRE_DESTRUCTION leak under TROMPELOEIL_LONG_MACROS', 'long-macro configuration only'),
+ 'r1': ('C02', 'sequence_type::cost(): a passed-over predecessor counts only if it is optional (lower bound 0)', 'satisfied-but-unsaturated predecessor with lower bound >= 1, a later step matching the call and a competing expectation of no higher true cost'),
+ 'r2': ('C15', 'sequence_type::validate_match(), empty-sequence branch: severity::nonfatal instead of the caller\'s severity', 'expectation retired from its sequence, the whole sequence drained, then that still-live expectation is called'),
+ 'r3': ('C07', 'run_actions(): the forbidden-call report prints params_string(val) (the expected values) instead of the actual arguments', 'forbidding expectation written with a wildcard or matcher parameter'),
 }
 rows = []
 for d in sorted(glob.glob(os.path.join(HERE, 'seeded', '*'))):
